@@ -109,6 +109,10 @@ def _ev0(e, env):
         return _log(x)
     if f is sympy.Abs:
         return abs(_ev(e.args[0], env))
+    if f is sympy.re:
+        return _ev(e.args[0], env)  # all model quantities are real
+    if f is sympy.im:
+        return 0.0
     if f is sympy.sign:
         x = _ev(e.args[0], env)
         return 0.0 if x == 0 else math.copysign(1.0, x)
